@@ -17,6 +17,7 @@ import (
 	"strconv"
 	"strings"
 	"sync"
+	"sync/atomic"
 	"time"
 
 	"github.com/varlink/go/varlink"
@@ -85,16 +86,30 @@ func (s *addrSubst) concrete(tokens []string) string {
 	return out
 }
 
-func guarded(f func() error) (res string) {
-	defer func() {
-		if r := recover(); r != nil {
-			res = "panic"
+var addrHangs int32
+
+// guarded runs one library call: "ok" / "err" / "panic", or "hang" if it has not returned after 8 s
+func guarded(f func() error) string {
+	ch := make(chan string, 1)
+	go func() {
+		defer func() {
+			if r := recover(); r != nil {
+				ch <- "panic"
+			}
+		}()
+		if err := f(); err != nil {
+			ch <- "err"
+			return
 		}
+		ch <- "ok"
 	}()
-	if err := f(); err != nil {
-		return "err"
+	select {
+	case r := <-ch:
+		return r
+	case <-time.After(8 * time.Second):
+		atomic.AddInt32(&addrHangs, 1)
+		return "hang"
 	}
-	return "ok"
 }
 
 func fileExists(p string) bool {
@@ -171,6 +186,10 @@ func runAddrCase(c *addrCase, tmp string) tr.M {
 	}
 	out := guarded(func() error { return svc.Bind(ctx, s) })
 	obs["out"] = out
+	if out == "hang" {
+		obs["again"] = "hang"
+		return obs
+	}
 	if l0 != nil {
 		defer l0.Close()
 	}
@@ -257,6 +276,10 @@ func cmdAddr(args []string) int {
 		if err := json.Unmarshal(line, &c); err != nil {
 			fmt.Fprintln(os.Stderr, "bad case:", err)
 			return 2
+		}
+		if atomic.LoadInt32(&addrHangs) >= 3 {
+			fmt.Fprintln(os.Stderr, "three library calls hung: the remaining cases are not run")
+			break
 		}
 		obs := runAddrCase(&c, tmp)
 		ob, _ := json.Marshal(obs)
